@@ -7,6 +7,7 @@ import Driver.Chan
 import Driver.C07
 import Driver.C20
 import Driver.C13
+import Driver.C12
 /-! nvdriver: line protocol. Each input line `<PROP> <tokens…>` is answered by exactly one line:
     `ok[ …]` | `diff …` (model and implementation disagree) | `specviol …` (the implementation's
     own answer violates the property predicate) | `bad-op`. -/
@@ -38,6 +39,7 @@ def dispatch (d : DS) (line : String) : DS × String :=
     | _ => let (s, o) := Driver.Chan.handle "C07" d.chan rest; ({ d with chan := s }, o)
   | "C20" :: rest => let (s, o) := Driver.C20.handle d.c20 rest; ({ d with c20 := s }, o)
   | "C13" :: rest => let (s, o) := Driver.C13.handle d.c13 rest; ({ d with c13 := s }, o)
+  | "C12" :: rest => (d, Driver.C12.handle rest)
   | "C14" :: rest => (d, Driver.C14.handle rest)
   | "C04" :: rest => (d, Driver.C04.handle rest)
   | "C08" :: rest => (d, Driver.C04.handle rest)
